@@ -22,7 +22,9 @@ type c13SpecFields struct {
 	// read by a Validate() method or by code reachable from one
 	validated map[*types.Var]bool
 	// handed to regexp.Compile* by validation code
-	compiled  map[*types.Var]bool
+	compiled map[*types.Var]bool
+	// handed to time.ParseDuration by validation code
+	parsedDur map[*types.Var]bool
 	nValidate int
 }
 
@@ -63,7 +65,7 @@ func (sf *c13SpecFields) schemaMinAtLeast(v *types.Var, min float64) bool {
 }
 
 func c13CollectSpecFields(c *core.Ctx, g *c13Graph) *c13SpecFields {
-	sf := &c13SpecFields{tag: map[*types.Var]reflect.StructTag{}, owner: map[*types.Var]string{}, validated: map[*types.Var]bool{}, compiled: map[*types.Var]bool{}}
+	sf := &c13SpecFields{tag: map[*types.Var]reflect.StructTag{}, owner: map[*types.Var]string{}, validated: map[*types.Var]bool{}, compiled: map[*types.Var]bool{}, parsedDur: map[*types.Var]bool{}}
 	var walk func(t types.Type, owner string, depth int)
 	walk = func(t types.Type, owner string, depth int) {
 		st, ok := t.(*types.Struct)
@@ -131,6 +133,11 @@ func c13CollectSpecFields(c *core.Ctx, g *c13Graph) *c13SpecFields {
 							sf.compiled[v] = true
 						}
 					}
+					if fo, ok := info.Uses[id].(*types.Func); ok && fo.Pkg() != nil && fo.Pkg().Path() == "time" && fo.Name() == "ParseDuration" {
+						if v := c13FieldOf(n, c13Core(n, e.Args[0])); v != nil {
+							sf.parsedDur[v] = true
+						}
+					}
 				}
 			}
 			return true
@@ -190,7 +197,8 @@ var c13PanicTable = map[string]c13PanicEntry{
 	"pkg/filters/proxy.(ServerPool).InjectResiliencePolicy": {n: 4, class: c13Defect, rule: "R-C13-4",
 		reason: "a retryPolicy / circuitBreakerPolicy name that is not defined in the pipeline's resilience section (or names a policy of the other kind) is accepted by validation and panics in Pipeline.reload (under the supervisor's recover, leaving a half-built pipeline) instead of being rejected: nothing in validation reads these fields",
 		fields: []c13Field{{c13Pool, "ServerPoolSpec", "RetryPolicy"}, {c13Pool, "ServerPoolSpec", "CircuitBreakerPolicy"}}},
-	"pkg/filters/proxy.(ServerPool).handle":                       {n: 1, reason: "\"should not reach here\": the handler chain returns nil, resilience.ErrShortCircuited or a serverPoolError (doHandle converts every failure); the two cases are handled before"},
+	"pkg/filters/proxy.(ServerPool).handle": {n: 1, reason: "\"should not reach here\": the handler chain returns nil, resilience.ErrShortCircuited or a serverPoolError (doHandle converts every failure); the two cases are handled before",
+		check: c13CheckWrapperOrigins},
 	"pkg/filters/proxy.(WeightedRandomLoadBalancer).ChooseServer": {n: 1, reason: "\"BUG: should not run to here\": with totalWeight = sum of non-negative weights (schema minimum=0) and 0 <= randomWeight < totalWeight the loop returns; totalWeight = 0 is R-C13-3's subject"},
 	"pkg/filters/topicmapper.(TopicMapper).Init":                  {n: 1, reason: "getTopicMapFunc returns nil only for a nil spec; CreateInstance always stores the spec"},
 	"pkg/object/globalfilter.(GlobalFilter).reload": {n: 2, reason: "supervisor.NewSpec of the before/after pipeline fails only if pipeline.Spec validation fails, and GlobalFilter's Spec.Validate runs the same validation on both pipelines",
